@@ -1898,12 +1898,35 @@ class SequenceOfAndSetOfBase(base.ConstructedAsn1Type):
             When idx > len(self)
         """
         if isinstance(idx, slice):
-            indices = tuple(range(len(self)))
-            startIdx = indices and indices[idx][0] or 0
-            for subIdx, subValue in enumerate(value):
-                self.setComponentByPosition(
-                    startIdx + subIdx, subValue, verifyConstraints,
-                    matchTags, matchConstraints)
+            # python list semantics: the new items take the place of
+            # the selected ones, what follows them moves up or down
+            value = list(value)
+            previous = self._componentValues
+            layout = list(range(len(self)))
+            try:
+                layout[idx] = [(item,) for item in value]
+
+            except ValueError:
+                raise error.PyAsn1Error(sys.exc_info()[1])
+
+            componentValues = {}
+            for newIdx, oldIdx in enumerate(layout):
+                if oldIdx.__class__ is not tuple and oldIdx in previous:
+                    componentValues[newIdx] = previous[oldIdx]
+
+            self._componentValues = componentValues
+            try:
+                for newIdx, item in enumerate(layout):
+                    if item.__class__ is tuple:
+                        self.setComponentByPosition(
+                            newIdx, item[0], verifyConstraints,
+                            matchTags, matchConstraints)
+
+            except Exception:
+                # a refused item: nothing has happened
+                self._componentValues = previous
+                raise
+
             return self
 
         if idx < 0:
